@@ -805,6 +805,19 @@ func (m *Monitors) checkLocks(prev *vh.Snapshot, bi *BatchInfo, next *vh.Snapsho
 
 func (m *Monitors) checkSchedules(prev *vh.Snapshot, bi *BatchInfo, next *vh.Snapshot, cmds []cmdRes) {
 	t := bi.Tick
+	// deletions and (re-)creations in command order: a schedule may be created and deleted inside one
+	// batch, which no snapshot shows
+	for _, c := range cmds {
+		if c.res == nil || rowsOf(c.res) != 1 {
+			continue
+		}
+		switch c.cmd.Kind {
+		case t_aio.DeleteSchedule:
+			m.deletedAck[c.cmd.DeleteSchedule.Id] = t
+		case t_aio.CreateSchedule:
+			delete(m.deletedAck, c.cmd.CreateSchedule.Id)
+		}
+	}
 	for id, s0 := range prev.S {
 		s1 := next.S[id]
 		if s1 == nil {
@@ -817,7 +830,6 @@ func (m *Monitors) checkSchedules(prev *vh.Snapshot, bi *BatchInfo, next *vh.Sna
 			if !ok {
 				m.violate("C10", "row:schedule-vanished", fmt.Sprintf("schedule %s disappeared without a delete", id))
 			}
-			m.deletedAck[id] = t // tick of the commit that removed the row
 			continue
 		}
 		if s0.String() == s1.String() {
@@ -943,7 +955,6 @@ func nz(b []byte) []byte {
 
 func (m *Monitors) checkNewSchedule(s1 *vh.SRow, t int64) {
 	m.hit("schedule.created")
-	delete(m.deletedAck, s1.Id)
 	if s1.Last != nil {
 		m.violate("C10", "row:new-schedule-has-last-run", fmt.Sprintf("new schedule has lastRunTime: %s", s1))
 	}
